@@ -100,8 +100,8 @@ static void part_kick(const std::vector<unsigned>& ns, const std::vector<unsigne
 }
 
 static void part_ctor(const std::vector<unsigned>& ns, const std::vector<unsigned>& nbs) {
-    const char* kinds[] = {"rf-linear", "rf-sin", "drift", "wake"};
-    for (unsigned n : ns) for (unsigned nb : nbs) for (unsigned it = 1; it <= 4; it++) for (int kind = 0; kind < 4; kind++)
+    const char* kinds[] = {"rf-linear", "rf-sin", "drift", "wake", "dynrf-linear", "dynrf-sin"};
+    for (unsigned n : ns) for (unsigned nb : nbs) for (unsigned it = 1; it <= 4; it++) for (int kind = 0; kind < 6; kind++)
     for (int var = 0; var < 3; var++) for (int sh = 0; sh < 2; sh++) {
         std::string kase = mcx::Desc()("part", "ctor")("map", kinds[kind])("n", n)("nb", nb)("it", it)("var", var)("shift", sh).str();
         if (!R.mine(kase)) continue;
@@ -128,6 +128,13 @@ static void part_ctor(const std::vector<unsigned>& ns, const std::vector<unsigne
             std::vector<float> slip = {angle, var == 1 ? 0.3f * angle : 0.f, var == 2 ? -0.2f * angle : 0.f};
             DriftMap m(in, out, slip, 1.3e9f, itt, false, nullptr);
             check_kick(kase, m, in, out, false, n, nb, it, key);
+        } else if (kind >= 4) {
+            // time-dependent RF kick (phase modulation, phase and amplitude noise): every apply() of the impulse test runs with another queue entry
+            const double frf = 5e8, bl2phase = 1e-3 / physcons::c * frf * 2 * M_PI, dE = in->getDelta(1) * 6.1e5, revpart = 0.01;
+            const double Veff = std::tan(angle) * dE / (in->getDelta(0) * revpart * bl2phase), V0 = 0.1 * Veff, VRF = std::sqrt(Veff * Veff + V0 * V0);
+            const unsigned queue = n + 8;
+            if (kind == 4) { DynamicRFKickMap m(in, out, n, n, angle, revpart, frf, var == 2 ? 0.003f : 0.f, var == 2 ? 0.05f : 0.f, 0.01f * (var + 1), 0.11, queue, itt, false, nullptr); check_kick(kase, m, in, out, true, n, nb, it, key); }
+            else { DynamicRFKickMap m(in, out, n, n, revpart, VRF, frf, V0, var == 2 ? 0.003f : 0.f, var == 2 ? 0.05f : 0.f, 0.01f * (var + 1), 0.11, queue, itt, false, nullptr); check_kick(kase, m, in, out, true, n, nb, it, key); }
         } else {
             std::vector<uint32_t> buckets; for (unsigned b = 0; b < nb; b++) buckets.push_back(nb - 1 - b);
             const unsigned spacing = n + 3, need = (nb - 1) * (nb > 1 ? spacing : 0) + n;
@@ -143,7 +150,7 @@ static void part_ctor(const std::vector<unsigned>& ns, const std::vector<unsigne
             check_kick(kase, m, in, out, true, n, nb, it, key);
         }
     }
-    R.bound_done("ctor: RFKickMap(linear,sinusoidal), DriftMap, WakePotentialMap x n x nb x it x 3 parameter sets x 2 grid shifts");
+    R.bound_done("ctor: RFKickMap(linear,sinusoidal), DriftMap, WakePotentialMap, DynamicRFKickMap(linear,sinusoidal; modulation, noise) x n x nb x it x 3 parameter sets x 2 grid shifts");
 }
 
 static void part_fp(const std::vector<unsigned>& ns, const std::vector<int>& shifts) {
